@@ -22,5 +22,5 @@ Spec == Init /\ [][Next]_<<v, w, cut>>
 RoundTrip == LET e == Enc(v, w) r == Decode(e, 1) IN
              cut = Len(e) => (r.ok /\ r.v = v /\ r.p = Len(e) + 1)
 CompactIsShortest == Len(Enc(v, 0)) <= Len(Enc(v, w))
-PrefixFree == LET e == Enc(v, w) IN cut < Len(e) => Decode(SubSeq(e, 1, cut), 1).err = "trunc"
+PrefixFree == LET e == Enc(v, w) IN cut < Len(e) => Decode(SubSeq(e, 1, cut), 1).err \in {"trunc", "count"}
 =============================================================================
